@@ -66,9 +66,18 @@ def play(rng, bind_mode, n_msgs, horizon, stale_probe=False, unbind_race=False):
                         # inbound traffic on this connection
                         for k in range(0 if (stale_probe and conn.index == 0) else rng.choice([0, 2, 4])):
                             inbound_seq[0] += 1
-                            kind = rng.choice(['deliver_sm', 'enquire_link', 'deliver_sm', 'alert', 'broken'])
+                            kind = rng.choice(['deliver_sm', 'enquire_link', 'deliver_sm', 'segment', 'alert', 'broken'])
                             if kind == 'deliver_sm':
                                 q = smppref.encode_sm(5, inbound_seq[0], src=b'111', dst=b'222', short_message=b'hello %d' % k)
+                            elif kind == 'segment':
+                                # one segment of a multi-part message (SAR parameters or UDH): intermediate segments are answered too
+                                if rng.random() < 0.5:
+                                    tl = (smppref.tlv(0x020C, struct.pack('>H', 40 + conn.index)) + smppref.tlv(0x020E, bytes([3]))
+                                          + smppref.tlv(0x020F, bytes([rng.choice([1, 2, 3])])))
+                                    q = smppref.encode_sm(5, inbound_seq[0], src=b'111', dst=b'222', short_message=b'part %d ' % k, tlvs=tl)
+                                else:
+                                    q = smppref.encode_sm(5, inbound_seq[0], src=b'111', dst=b'222', esm_class=0x40,
+                                                          short_message=smppref.udh8(50 + conn.index, 3, rng.choice([1, 2, 3])) + b'part %d ' % k)
                             elif kind == 'enquire_link':
                                 q = smppref.header(0x15, 0, inbound_seq[0])
                             elif kind == 'alert':
@@ -244,7 +253,7 @@ def run(ctx):
     ctx.assumptions = ['the framing theorem uses C03_command_length: every PDU the library builds carries its own length']
     proved = ctx.prove('C15', THEOREMS)
     rng = ctx.rng
-    n = 600 if ctx.thorough else 120
+    n = 5000 if ctx.thorough else 120
     cases = []
     for i in range(n):
         bind_mode = rng.choice(['TRANSCEIVER', 'TRANSCEIVER', 'TRANSMITTER', 'RECEIVER'])
